@@ -255,6 +255,11 @@ def check(ctx, stmts, workload="gen"):
                 ctx.violate("warnings-as-errors:" + mech, msg, wit)
         elif ok5:
             ctx.hit("parsed-with-warnings-as-errors:warning-surfaced:not-judged")
+            if snapshot.REFUSED:
+                bad = snapshot.answers_after_a_refused_parse(snapshot.REFUSED[0], exp)
+                ctx.hit("object-asked-after-its-parse-was-refused:" + ("says-it-is-not-parsed" if bad is None else "answers"))
+                for mech, msg in (bad or []):
+                    ctx.violate("answers-after-a-refused-parse:" + mech, msg, wit)
     if ctx.rng.random() < 0.35:
         # the same object parsed again (supported; it only warns): uses are expanded again, to the same tables
         import warnings  # noqa: PLC0415
